@@ -144,7 +144,7 @@ def check_fill_1d(rec: core.Recorder, h, pre: Dict[str, Any], value, weight, res
             if not good:
                 fail(f"{name} after fill is wrong", [name], before=pre[name], after=got, expected=expected)
     else:
-        if exp in (-1, n):
+        if exp in (-1, n) or exp is None:  # below, above, or in a gap between the bins: outside the bins
             d = snap.diff(pre, post, ignore=("dtype", "statistics"))
             d = {k for k in d if not (k in ("frequencies", "errors2") and snap.values_equal_numeric(pre[k], post[k]))}
             if d:
